@@ -129,7 +129,12 @@ def run(ctx: core.Ctx):
             for j in range(2):
                 cube[:, i, j] = gen.series(rng, nobs, "ndvi")
         t = np.arange(nobs).astype("datetime64[D]")
-        da = xr.DataArray(cube, dims=("time", "y", "x"), coords={"time": t})
+        # every int16 value is an observation for whitint (the array's nodata attribute, if any, plays no role): one pixel passes through
+        # the attribute's value once
+        attrs = {} if k % 2 else {"nodata": -9999}
+        if attrs:
+            cube[rng.randrange(nobs), 0, 0] = -9999
+        da = xr.DataArray(cube, dims=("time", "y", "x"), coords={"time": t}, attrs=attrs)
         res = da.hdc.whit.whitint(labels, template)
         nruns = int(1 + np.count_nonzero(np.diff(labels)))
         ctx.case(("whitint", cube.tobytes(), template.tobytes()), sample=dict(accessor="whitint", n=nobs, days=len(template)))
